@@ -65,6 +65,7 @@ type Cfg struct {
 	InitialDEs     int
 	ReqPerBlockPct int
 	MaxGroupSize   uint64
+	CreationPeriod uint64
 	PoorRequester  int64 // if > 0 the last requester keeps only this many uband
 }
 
@@ -169,6 +170,18 @@ type Hist struct {
 	ParamChangedAt []int64
 	sentSig        map[string]bool
 	oldSigs        []*tsstypes.MsgSubmitSignature
+	// Extra lets a check add its own txs to every block (called before the shuffle).
+	Extra func(h *Hist, ops *[]*TxRec)
+	// Between is called between blocks, before generation (authority actions).
+	Between func(h *Hist)
+	// CurGroupModel / Thresholds: the fee monitor's view of the paying group (maintained by the check).
+	CurGroupModel tss.GroupID
+	Thresholds    map[tss.GroupID]uint64
+}
+
+// Add lets hooks append a transaction.
+func (h *Hist) Add(ops *[]*TxRec, tag string, actor *sim.Account, msg sdk.Msg, meta map[string]any) {
+	h.add(ops, tag, actor, msg, meta)
 }
 
 func (h *Hist) Logf(s string, a ...any) {
@@ -209,6 +222,9 @@ func NewHist(run *sim.Run, label string, caseID int, cfg Cfg, mons func(h *Hist)
 			if cfg.MaxGroupSize > 0 {
 				tg.Params.MaxGroupSize = cfg.MaxGroupSize
 			}
+			if cfg.CreationPeriod > 0 {
+				tg.Params.CreationPeriod = cfg.CreationPeriod
+			}
 			tp = tg.Params
 			gs[tsstypes.ModuleName] = cdc.MustMarshalJSON(&tg)
 		}})
@@ -222,6 +238,8 @@ func NewHist(run *sim.Run, label string, caseID int, cfg Cfg, mons func(h *Hist)
 		return nil, fmt.Errorf("bootstrap: %w", err)
 	}
 	h.Group = gid
+	h.CurGroupModel = gid
+	h.Thresholds = map[tss.GroupID]uint64{gid: cfg.Threshold}
 	for i := 0; i < cfg.LazyMembers && i < len(h.TW.Members); i++ {
 		h.lazy[h.TW.Members[len(h.TW.Members)-1-i].Acc.Addr.String()] = true
 	}
@@ -357,10 +375,9 @@ func (h *Hist) gen() []*TxRec {
 		}
 	}
 	// 3. re-activation of deactivated members
-	for _, m := range h.TW.Members {
-		bm, err := w.App.BandtssKeeper.GetMember(ctx, m.Acc.Addr, h.Group)
-		if err == nil && !bm.IsActive && rng.Chance(1, 3) {
-			h.add(&ops, "member:activate", m.Acc, bandtsstypes.NewMsgActivate(m.Acc.Addr.String(), h.Group), nil)
+	for _, bm := range w.App.BandtssKeeper.GetMembers(ctx) {
+		if m := h.TW.ByAddr[bm.Address]; m != nil && !bm.IsActive && rng.Chance(1, 3) {
+			h.add(&ops, "member:activate", m.Acc, bandtsstypes.NewMsgActivate(bm.Address, bm.GroupID), nil)
 		}
 	}
 	// 4. signing requests
@@ -369,7 +386,7 @@ func (h *Hist) gen() []*TxRec {
 		nreq++
 		r := sim.Pick(rng, h.Req)
 		text := []byte(fmt.Sprintf("msg-%d-%d-%d", h.Case, w.Height, nreq))
-		need := cfg.FeePerSigner.MulInt(math.NewIntFromUint64(cfg.Threshold))
+		need := cfg.FeePerSigner.MulInt(math.NewIntFromUint64(h.Thresholds[h.CurGroupModel]))
 		limit := need
 		tag := "req:exact-limit"
 		switch rng.Intn(8) {
@@ -387,6 +404,9 @@ func (h *Hist) gen() []*TxRec {
 			panic(err)
 		}
 		h.add(&ops, tag, r, msg, map[string]any{"limit": limit.String()})
+	}
+	if h.Extra != nil {
+		h.Extra(h, &ops)
 	}
 	sim.Shuffle(rng, ops)
 	for _, o := range ops { // sign in final order so that per-account sequences are increasing
@@ -562,6 +582,12 @@ func (h *Hist) Step() bool {
 			h.ParamChangedAt = append(h.ParamChangedAt, w.Height+1)
 			h.Logf("tss params -> period=%d attempts=%d maxDE=%d", p.SigningPeriod, p.MaxSigningAttempt, p.MaxDESize)
 			h.Run.Count("param-change", 1)
+		}
+	}
+	if h.Between != nil {
+		h.Between(h)
+		if h.Failed {
+			return false
 		}
 	}
 	ops := h.gen()
